@@ -210,11 +210,37 @@ class InitWalk(proto.Interp):
         return None
 
 
+class PartWalk(proto.Interp):
+    """walk of _get_part: a property of the reader read through self (`self._data` -> `return self._arr`) is its getter's value"""
+    def __init__(self, repo, cls):
+        super().__init__(repo, unroll=1, inline_depth=0)
+        self.cls = cls
+
+    def on_attr_load(self, node, base, st):
+        if base == T('self'):
+            p = self.repo.lookup_prop(self.cls, node.attr)
+            if p and 'get' in p and len(self.fi_stack) < 4:
+                return [(v, s) for kind, v, s in self.call_function(p['get'], (), {}, st, recv=base) if kind == 'ok']
+        return None
+
+
+def _abstract(cls):
+    """a class with a member whose whole body is `raise NotImplementedError`: an intermediate base, never instantiated"""
+    for m in list(cls.methods.values()) + [g for p_ in getattr(cls, 'props', {}).values() for g in p_.values()]:
+        body = [x for x in m.body() if not (isinstance(x, ast.Expr) and isinstance(x.value, ast.Constant))]
+        if len(body) == 1 and isinstance(body[0], ast.Raise) and body[0].exc is not None and 'NotImplementedError' in unparse(body[0].exc):
+            return True
+    return False
+
+
 def t2_d1_readers(ctx):
     repo = ctx.repo
     base = repo.cls(TR, 'BaseEphysReader')
     me = T('self')
     for cls in repo.subclasses(base):
+        if _abstract(cls) and repo.subclasses(cls):
+            ctx.holds('C01.T2', cls, 'intermediate base class (a member raises NotImplementedError; its concrete subclasses are checked)', cls.name, nontrivial=False)
+            continue
         init = repo.lookup_method(cls, '__init__')
         gp = repo.lookup_method(cls, '_get_part')
         if init is None or gp is None or gp.cls is base:
@@ -236,7 +262,7 @@ def t2_d1_readers(ctx):
         ctx.check(not missing, 'C01.T2', init, cls.name, '%s.__init__ assigns %s on all %d normal paths' % (cls.name, ', '.join(ATTRS), len(normal)),
                   '%s.__init__ leaves %s at the class defaults on some path: indexing and shape use empty bounds / rate 0' % (cls.name, sorted(missing)))
         # D1
-        gwalk = proto.Interp(repo, unroll=1, inline_depth=0)
+        gwalk = PartWalk(repo, cls)
         gouts = gwalk.run(gp, env={gp.params[0]: me})
         rets = [val for kind, val, st in gouts if kind == 'return']
         if cls.name.startswith('Random'):
